@@ -452,10 +452,19 @@ def with_generator_cm(ex, n, st, inf, pos, kw):
         if oc[0] != 'normal':
             s2.pop(); outs.append((s2, oc if oc[0] == 'raise' else ('raise', s2.exc_obj('RuntimeError')))); continue
         for s3, oc3 in ex.s_Try(tr, s2, resume=resume):
-            s3.pop()
+            fid = s3.pop()
             if oc3[0] == 'yield':
                 raise Unsupported('second yield in a context manager')
-            outs.append((s3, oc3))
+            parked = s3.g.get('parked', {}).get(fid)
+            if parked is None:
+                # the generator ended before reaching its yield: contextlib raises RuntimeError("generator didn't yield")
+                outs.append((s3, oc3 if oc3[0] == 'raise' else ('raise', s3.exc_obj('RuntimeError')))); continue
+            if oc3[0] == 'raise':
+                outs.append((s3, oc3))                      # the generator (re-)raised: that exception leaves the with statement
+            elif parked[0] == 'raise':
+                outs.append((s3, ('normal',)))              # the generator finished although the body raised: exception suppressed
+            else:
+                outs.append((s3, parked))                   # the generator finished normally (incl. `return`): the parked outcome takes effect
     return outs
 
 
